@@ -431,6 +431,40 @@ pub fn run(prop: &'static str, tier: &str) -> i32 {
         all.merge(Acc::merge_all(accs));
     }
 
+    // ---- the error names the duplicated key - the key itself, whatever its length or content
+    if prop == "C17" {
+        use crate::adapter::{BEvent, BOp, ClaimSpec, ErrClass, Layer, Out};
+        let mut keys: Vec<String> = vec!["k".repeat(64), "k".repeat(65), "https://example.com/claims/".to_string() + &"segment/".repeat(12), "k".repeat(300), format!("{}\u{e9}{}", "k".repeat(63), "z".repeat(10)), "k".repeat(5_000)];
+        keys.extend(crate::domains::hostile_texts().into_iter().filter(|h| !h.is_empty()));
+        let mut acc = Acc::default();
+        for p in [Proto::V4L, Proto::V2P].into_iter().filter(|p| p.enabled()) {
+            let key = crate::domains::key_pool(p)[0].clone();
+            crate::adapter::freeze_default_clock();
+            for k in &keys {
+                // a sibling key that shares a long prefix: the error must name the one that was repeated
+                let sibling = format!("{}-sibling", k);
+                let ops = vec![
+                    BOp::Claim(ClaimSpec { key: sibling.clone(), value: json!(0), form: crate::adapter::Form::TupleString }),
+                    BOp::Claim(ClaimSpec { key: k.clone(), value: json!(1), form: crate::adapter::Form::TupleString }),
+                    BOp::Claim(ClaimSpec { key: k.clone(), value: json!(2), form: crate::adapter::Form::TupleString }),
+                    BOp::Build,
+                ];
+                let (ev, _) = crate::adapter::with_rng_script(vec![vec![1u8; 32]], || crate::adapter::build_history(p, Layer::Prelude, &key.sk, &ops));
+                acc.executions += 1;
+                acc.choice_points += 1;
+                match ev.last() {
+                    Some(BEvent::Built(Out::Err(ErrClass::Dup(named)))) if named == k => acc.bump("duplicate-named-exactly"),
+                    other => acc.violate(
+                        format!("C17|{}|duplicate-key-naming", p.name()),
+                        format!("a key of {} bytes ({:?}...) supplied twice: build -> {}, expected the duplicate-claim error naming exactly that key", k.len(), k.chars().take(24).collect::<String>(), format!("{:?}", other).chars().take(160).collect::<String>()),
+                        json!({"near_miss": ["naming", p.name(), k.len()]}),
+                    ),
+                }
+            }
+        }
+        all.merge(acc);
+    }
+
     all.executions = REPLAYS.load(Ordering::Relaxed) + all.executions;
     all.impl_calls = all.executions;
     all.controls_ok = *all.hist.get("sequence:conforms").unwrap_or(&0);
